@@ -107,6 +107,26 @@ func c19(e *Env) {
 		if n0 == 0 {
 			ob.Fail(core.FuncName(run), "the source never sends")
 		}
+		// a scanner loop: every token is sent (Scan()=true ⇒ a send before the next Scan or the end), and the loop ends
+		// when the input does (Scan()=false ⇒ no further send): the polarity of the loop test, which no "the send is in
+		// the loop" rule sees
+		for _, n := range g.Nodes {
+			if !n.IsCallTo("(*bufio.Scanner).Scan") || n.Kind == core.KAfter {
+				continue
+			}
+			isSend := func(m *core.Node) bool { _, ok := isPortSend(m); return ok }
+			obS := r.Ob("R1", src+":every-token-sent", "each token the scanner delivers is sent, and nothing is sent once the scanner is exhausted")
+			resT := g.Run(core.Scenario{Start: n, Result: core.BoolAV(true)})
+			resF := g.Run(core.Scenario{Start: n, Result: core.BoolAV(false)})
+			switch {
+			case resT.ReachesAvoiding(func(m *core.Node) bool { return m.Kind == core.KRootRet || m == n }, isSend) != nil:
+				obS.Fail(g.Where(n), "after Scan() returned true the next Scan or the end of Run can be reached without a send: tokens are dropped")
+			case resF.Reaches(isSend) != nil:
+				obS.Fail(g.Where(n), "after Scan() returned false (input exhausted) a send is still reachable: the loop test is inverted or an item is invented")
+			default:
+				obS.OK(g.Where(n), "Scan()=true ⇒ send; Scan()=false ⇒ no send")
+			}
+		}
 		// a reader that delivers data together with its end-of-input error (bufio.Reader.ReadString: the last line of a
 		// file without a trailing newline comes with io.EOF): that data must still be sent
 		for _, n := range g.Nodes {
@@ -656,6 +676,56 @@ func (e *Env) c19Concatenator(run *ssa.Function) {
 	}
 	if nc == 0 {
 		ob.Fail(core.FuncName(run), "the output handles are never closed")
+	}
+	// every handle is closed and every output IP is sent: the one made from the configured path directly, the per-group
+	// ones by complete loops over the maps that hold them
+	obC := r.Ob("R5", "Concatenator:all-closed+all-sent", "the main output and every per-group output are closed and then sent on every normally returning path")
+	{
+		xs := e.xsym()
+		isRet := func(m *core.Node) bool { return m.Kind == core.KRootRet }
+		entry := g.Run(core.Scenario{Start: g.Entry, AtEntry: true})
+		check := func(what string, isOp func(*core.Node) bool, argIdx int) {
+			var direct, ranged []*core.Node
+			for _, n := range g.Select(isOp) {
+				a := xs.InCtx(n.Ctx, n.Call.Args[argIdx]).String()
+				if strings.HasPrefix(a, "val∈") {
+					ranged = append(ranged, n)
+				} else {
+					direct = append(direct, n)
+				}
+			}
+			if len(direct) == 0 {
+				obC.Fail(core.FuncName(run), "the main output is never "+what)
+			} else {
+				set := nodeSet(direct)
+				if w := entry.ReachesAvoiding(isRet, func(m *core.Node) bool { return set[m] }); w != nil {
+					obC.Fail(g.Where(direct[0]), "Run can return normally without the main output having been "+what)
+				} else {
+					obC.OK(g.Where(direct[0]), "main output "+what+" on every returning path")
+				}
+			}
+			if len(ranged) == 0 {
+				obC.Fail(core.FuncName(run), "the per-group outputs are never "+what)
+				return
+			}
+			for _, n := range ranged {
+				las := iterLoops(g, n)
+				if len(las) == 0 || !e.loopHarmlessExits(g, las[0]) {
+					obC.Fail(g.Where(n), "the loop in which the per-group outputs are "+what+" can be left early")
+					continue
+				}
+				if e.forAllIn(obC, g, las[0], n, func(m *core.Node) bool { return m == n }, core.Scenario{}, "per-group outputs "+what) {
+					test, _, okT := g.LoopTest(las[0])
+					if okT && entry.ReachesAvoiding(isRet, func(m *core.Node) bool { return m == test }) != nil {
+						obC.Fail(g.Where(n), "Run can return normally without the per-group outputs having been "+what)
+					} else {
+						obC.OK(g.Where(n), "per-group outputs "+what+" (complete loop)")
+					}
+				}
+			}
+		}
+		check("closed", isClose, 0)
+		check("sent", isSendN, 1)
 	}
 	// writes: in the receive loop, each branch has two writes: data then "\n" (a write helper called from
 	// several places counts once per calling context)
